@@ -639,3 +639,82 @@ Proof.
   - destruct s; [discriminate|]. cbn [firstn]. discriminate.
   - apply (space_run_spacelike s prev k H).
 Qed.
+
+(* ================================================================== round 3 *)
+(* ------------------------------------------------------------------ _find_closing_brace, exactly *)
+Lemma fcb_pos_min : forall s level i last,
+  (exists u r, s = u ++ r /\ fcb_pos s (S level) i last = i + length u /\ 0 < length u /\
+               depth_from (S level) u = Some 0 /\
+               (forall p x, u = p ++ x -> x <> [] -> exists k, depth_from (S level) p = Some (S k))) \/
+  (fcb_pos s (S level) i last = i + length s /\
+   (forall p x, s = p ++ x -> exists k, depth_from (S level) p = Some (S k))).
+Proof.
+  induction s as [|c t IH]; intros level i last.
+  - right. split; [cbn; lia|]. intros p x E. symmetry in E. apply app_eq_nil in E as [-> _]. exists level. reflexivity.
+  - cbn [fcb_pos]. unfold is_lbrace, is_rbrace.
+    assert (Hstep : forall lvl' (Hc : forall w, depth_from (S level) (c :: w) = depth_from (S lvl') w) i' last',
+      (exists u r, t = u ++ r /\ fcb_pos t (S lvl') i' last' = i' + length u /\ 0 < length u /\
+               depth_from (S lvl') u = Some 0 /\
+               (forall p x, u = p ++ x -> x <> [] -> exists k, depth_from (S lvl') p = Some (S k))) \/
+      (fcb_pos t (S lvl') i' last' = i' + length t /\
+       (forall p x, t = p ++ x -> exists k, depth_from (S lvl') p = Some (S k))) ->
+      i' = S i ->
+      (exists u r, c :: t = u ++ r /\ fcb_pos t (S lvl') i' last' = i + length u /\ 0 < length u /\
+               depth_from (S level) u = Some 0 /\
+               (forall p x, u = p ++ x -> x <> [] -> exists k, depth_from (S level) p = Some (S k))) \/
+      (fcb_pos t (S lvl') i' last' = i + length (c :: t) /\
+       (forall p x, c :: t = p ++ x -> exists k, depth_from (S level) p = Some (S k)))).
+    { intros lvl' Hc i' last' [(u & r & H1 & H2 & H3 & H4 & H5)|[H1 H2]] ->.
+      - left. exists (c :: u), r. split; [cbn [app]; f_equal; exact H1|]. split; [rewrite H2; cbn [length]; lia|].
+        split; [cbn [length]; lia|]. split; [rewrite Hc; exact H4|].
+        intros p x E Hx. destruct p as [|c' p']; [exists level; reflexivity|].
+        cbn [app] in E. injection E as <- E. rewrite Hc. apply (H5 p' x E Hx).
+      - right. split; [rewrite H1; cbn [length]; lia|].
+        intros p x E. destruct p as [|c' p']; [exists level; reflexivity|].
+        cbn [app] in E. injection E as <- E. rewrite Hc. apply (H2 p' x E). }
+    destruct (N.eqb c c_lbrace) eqn:El.
+    + apply (Hstep (S level)); [intros w; cbn [depth_from]; rewrite El; reflexivity|apply IH|reflexivity].
+    + destruct (N.eqb c c_rbrace) eqn:Er.
+      * destruct level as [|l'].
+        -- left. exists [c], t. split; [reflexivity|]. split; [cbn [length]; lia|]. split; [cbn [length]; lia|].
+           split; [cbn [depth_from]; rewrite El, Er; reflexivity|].
+           intros p x E Hx. destruct p as [|c' p']; [exists 0; reflexivity|].
+           cbn [app] in E. injection E as _ E. symmetry in E. apply app_eq_nil in E as [_ E]. contradiction.
+        -- apply (Hstep l'); [intros w; cbn [depth_from]; rewrite El, Er; reflexivity|apply IH|reflexivity].
+      * apply (Hstep level); [intros w; cbn [depth_from]; rewrite El, Er; reflexivity|apply IH|reflexivity].
+Qed.
+
+(* the returned prefix is the SHORTEST prefix that closes the group opened before the string
+   (every proper prefix of it is still inside the group), or -- when no prefix closes it --
+   the whole string *)
+Lemma find_closing_brace_spec_lemma s u r : find_closing_brace s = (u, r) ->
+  s = u ++ r /\
+  ((depth_from 1 u = Some 0 /\
+    forall p x, u = p ++ x -> x <> [] -> exists k, depth_from 1 p = Some (S k)) \/
+   (u = s /\ r = [] /\ forall p x, s = p ++ x -> exists k, depth_from 1 p = Some (S k))).
+Proof.
+  intros Ef. split; [apply (find_closing_brace_app s u r Ef)|].
+  unfold find_closing_brace in Ef.
+  destruct (fcb_pos_min s 0 0 0) as [(u' & r' & H1 & H2 & H3 & H4 & H5)|[H1 H2]].
+  - left. rewrite H2 in Ef. cbn [Nat.add] in Ef.
+    assert (E0 : Nat.eqb (length u') 0 = false) by (apply Nat.eqb_neq; lia).
+    rewrite E0 in Ef. injection Ef as <- <-.
+    rewrite H1. rewrite firstn_app, Nat.sub_diag, firstn_all, app_nil_r. cbn [firstn]. auto.
+  - right. rewrite H1 in Ef. cbn [Nat.add] in Ef.
+    destruct (Nat.eqb (length s) 0); injection Ef as <- <-.
+    + auto.
+    + rewrite firstn_all, skipn_all. auto.
+Qed.
+
+(* ------------------------------------------------------------------ split_name_list / abbreviate: the separators *)
+Lemma join_cons_ne sep p rest : rest <> [] -> join sep (p :: rest) = p ++ sep ++ join sep rest.
+Proof. destruct rest; [congruence|reflexivity]. Qed.
+
+Lemma flat_join sep : forall pairs lastp, Forall (fun sp => sp = sep) (map snd pairs) ->
+  flat pairs ++ lastp = join sep (map fst pairs ++ [lastp]).
+Proof.
+  induction pairs as [|[p sp] pairs IH]; intros lastp H; [reflexivity|].
+  cbn [map snd fst] in *. inversion H as [|? ? Hs H']; subst.
+  unfold flat in *. cbn [flat_map fst snd app]. rewrite <- !app_assoc, (IH lastp H').
+  cbn [map app]. rewrite join_cons_ne; [reflexivity|]. destruct (map fst pairs); discriminate.
+Qed.
